@@ -8,6 +8,8 @@ inductive Panic
   | debugAssert   -- `debug_assert!` (debug profile)
   | assertFail    -- `assert!`/`assert_eq!`
   | expect        -- `expect(..)` on a missing index
+  | divZero       -- division or remainder by zero
+  | fuel          -- a translated `while`/`loop` exceeded its iteration budget (2^64): non-termination
 deriving Repr, DecidableEq, Inhabited
 
 /-- the four real builds: `checked` = overflow checks + debug assertions (cargo debug profile);
